@@ -12,6 +12,7 @@
   `reads` (finished read-only calls), `done`/`before` (returned commits, snapshot at invocation).
 -/
 import Lungo.Proofs.ConcLogAll
+import Lungo.Proofs.ConcFreezeAll
 namespace Lungo.Conc.C04
 open Lungo.Conc
 
@@ -60,16 +61,61 @@ theorem no_lost_update {n : Nat} {s : State} (h : Reachable n s) {i j : Nat} {r1
   have : r1.ops.length = 0 := by omega
   exact hne (List.length_eq_zero_iff.mp this)
 
-/-- `write_history` (the part of `serializable` about individual calls, general form): every write
-    a callback performed ran on log `seen` and its operation directly follows `seen` in its
-    transaction's private log `base ++ ops`.
-    FULL statement (not proved here): for a write whose transaction is committed with record `r`,
-    `seen ++ [op]` is a prefix of `r.base ++ r.ops` (hence of the catalog).  Missing: the frozen-after-commit
-    fact `(s.txns r.tid).ops = r.ops`, which holds only when no session is shared between actors
-    (a second goroutine holding a stale `sess.Transaction()` may still write into it). -/
-theorem write_history_partial {n : Nat} {s : State} (h : Reachable n s) :
+/-- `write_history_local` (every reachable state, sessions may be shared): every write a callback
+    performed ran on log `seen`, and its operation directly follows `seen` in its transaction's
+    private log `base ++ ops`. -/
+theorem write_history_local {n : Nat} {s : State} (h : Reachable n s) :
     ∀ e ∈ s.hist, Pre (e.seen ++ [e.op]) ((s.txns e.tid).base ++ (s.txns e.tid).ops) :=
   fun e he => ((inv3_reachable h).hinv e he).2
+
+/-- `write_history` (the part of `serializable` about individual calls; configuration: no session is
+    used by two actors at once, `ReachableU`): for every write `e` a callback performed and every
+    commit record `r` of its transaction, the log `e.seen` the write ran on followed by its operation
+    is a prefix of `r.base ++ r.ops`, hence of the catalog: replaying the change log one operation at
+    a time reaches exactly the state the call observed and then applies its operation — every
+    committed call's returned result is reproduced.  (The committed transaction object is frozen:
+    `(s.txns r.tid).ops = r.ops`.) -/
+theorem write_history {n : Nat} {s : State} (h : ReachableU n s) :
+    ∀ e ∈ s.hist, ∀ r ∈ s.commitLog, r.tid = e.tid →
+      Pre (e.seen ++ [e.op]) (r.base ++ r.ops) ∧ Pre (e.seen ++ [e.op]) s.eng.catalog := by
+  intro e he r hr htid
+  have hl := write_history_local h.reachable e he
+  obtain ⟨hops, hbase⟩ := (zfrz_reachable h).2.2.2.1 r hr
+  rw [← htid, hops, hbase] at hl
+  refine ⟨hl, ?_⟩
+  obtain ⟨i, hi⟩ := List.getElem?_of_mem hr
+  obtain ⟨rest, hcat⟩ := ((serializable h.reachable).2 i r hi).2
+  rw [hcat]
+  exact hl.app rest
+
+/-- the restriction is necessary: with a session shared by two actors, a goroutine that obtained
+    `sess.Transaction()` before the other goroutine's `CommitTransaction` can still run its callback
+    on the (now committed) transaction object; its acknowledged write never reaches the catalog.
+    (MongoDB sessions are not safe for concurrent use, so this is outside the property's domain.) -/
+def staleWrite : List (ActorId × Choice) :=
+  [(1, .call (.sessStart 5)), (1, .go), (1, .go), (1, .go), (1, .go), (1, .tok), (1, .go), (1, .go),
+   (1, .go), (1, .go), (1, .go),                                   -- session 5 has transaction 0
+   (2, .call (.useTx true (some 5))), (2, .go), (2, .go),          -- 2 read sess.Transaction() = txn 0
+   (1, .call (.sessCommit 5)), (1, .go), (1, .go), (1, .go), (1, .go), (1, .go),   -- 1 commits txn 0
+   (2, .cbWrite)]                                                  -- 2's callback writes into txn 0
+
+theorem write_history_fails_shared :
+    ∃ s, Reachable 2 s ∧ ∃ e ∈ s.hist, ∃ r ∈ s.commitLog, r.tid = e.tid ∧
+      (s.loc 2).res = .ok ∧ ¬ Pre (e.seen ++ [e.op]) s.eng.catalog := by
+  have hsome : (run (init 2) staleWrite).isSome = true := by rfl
+  refine ⟨(run (init 2) staleWrite).get hsome, run_reachable .init staleWrite _ (by simp), ?_⟩
+  refine ⟨⟨0, [], 0⟩, ?_, ⟨0, [], [], 0, []⟩, ?_, rfl, ?_, ?_⟩
+  · show _ ∈ ((run (init 2) staleWrite).get hsome).hist
+    have : ((run (init 2) staleWrite).get hsome).hist = [⟨0, [], 0⟩] := by rfl
+    rw [this]; simp
+  · show _ ∈ ((run (init 2) staleWrite).get hsome).commitLog
+    have : ((run (init 2) staleWrite).get hsome).commitLog = [⟨0, [], [], 0, []⟩] := by rfl
+    rw [this]; simp
+  · rfl
+  · have : ((run (init 2) staleWrite).get hsome).eng.catalog = [] := by rfl
+    rw [this]
+    rintro ⟨r, hr⟩
+    simp at hr
 
 /-- `real_time`: the log order respects real time.  `rB.before` is the snapshot, taken when the call
     that began `rB` was INVOKED, of `done` = the (transaction, end position) pairs appended whenever a
